@@ -91,6 +91,11 @@ class C16(PropBase):
             if case.args[0] in ('hamlet/a/*', 'hamlet', 'hamlet/*') and none_types and impl[1]:
                 return 'GetFromAll.get(%r) yields %r for types configured without a Getter' % (case.args[0], impl[1][:2])
             return None
+        if case.stream == 'get_data' and case.meta.get('enc') == 'none' and not case.meta.get('attrs') and impl[0] == 'ok':
+            sid_ = case.args[0] if isinstance(case.args[0], str) else None
+            for k, val in impl[1]:
+                if k == 'sid' and sid_ and val and (val[0] == sid_ or val[0].endswith(':' + sid_)):
+                    return "get_data(%r, sid_encode -> None) carries the Sid under 'sid' (%r): an earlier call's encoding leaked into this record" % (sid_, val[0])
         if case.op == 'get_and_find':
             if impl[0] != 'ok':
                 return None if impl[1] == 'SpilException' else 'get / find raised %r' % (impl,)
@@ -109,6 +114,8 @@ class C16(PropBase):
                 else:
                     exp = {'str': s, 'uri': u, 'none': None, 'last': s.split('/')[-1]}[enc]
                     if enc == 'none':
+                        if d.get('sid') in (s, u):
+                            return "record of %r carries the Sid under 'sid' (%r) although the encoder returns None (stored values are never the Sid itself)" % (s, d.get('sid'))
                         # omitted when the encoder returns None (unless the stored data itself has a key of that name)
                         if 'sid' in d and not any('sid' in ks for ks in self._stored.get(case.meta['u'], {'?': ['sid']}).values()):      # (entities may share a sidecar)
                             return "record of %r carries 'sid' = %r although the encoder returns None" % (s, d.get('sid'))
